@@ -17,6 +17,31 @@ def safe_names():
     return [n for n in PLAIN_NAMES if n not in markup_snippets]
 
 
+def same_name_snippets():
+    """Built-in html snippet keys whose definition is ONE element of the same name (`a` -> a[href],
+    `img` -> img[src alt]/, `select` -> select[name id]): usable wherever the tree is observed."""
+    from emmet.snippets import markup_snippets
+    out = []
+    for k, v in markup_snippets.items():
+        if not re.match(r'^[a-z][a-z0-9]*$', k):
+            continue
+        m = re.match(r'^%s(\[[^\]>+^()]*\])?/?$' % re.escape(k), v)
+        if m:
+            out.append((k, v.endswith('/')))
+    return sorted(out)
+
+
+def mark_self_close(stmt, rng, allow_leaf, p=0.12):
+    """Put the `/` mark on some elements: always allowed on an element that gets a child through
+    `>` (it is then written with explicit open and close tags), on leaves only when the output
+    style writes self-closed leaves as `<x />` (xml / xhtml), so that the tag parser stays exact."""
+    for unit, op in stmt:
+        if isinstance(unit, Group):
+            mark_self_close(unit.items, rng, allow_leaf, p)
+        elif rng.random() < p and (op == '>' or allow_leaf):
+            unit.self_close = True
+
+
 class El:
     __slots__ = ('name', 'id', 'classes', 'attrs', 'text', 'repeat', 'self_close')
 
